@@ -242,10 +242,13 @@ func (f *Frame) execInstr(ins ssa.Instruction, st *State, b *ssa.BasicBlock, idx
 			f.set(ins, Val{T: u.freshOf(st, "index", ins.Type())})
 		}
 	case *ssa.Lookup:
+		f.guardUse(ins, ins.X, st)
 		f.execLookup(ins, st)
 	case *ssa.MapUpdate:
+		f.guardUse(ins, ins.Map, st)
 		f.execMapUpdate(ins, st)
 	case *ssa.Range:
+		f.guardUse(ins, ins.X, st)
 		f.execRange(ins, st)
 	case *ssa.Next:
 		f.execNext(ins, st)
@@ -808,6 +811,74 @@ func (f *Frame) guardCheck(ins *ssa.FieldAddr, lv *LValue, st *State) {
 				}
 				if esc := escapes(ld, map[ssa.Value]bool{}); esc != "" {
 					u.addObl(st, "lock:no-escape", fmt.Sprintf("%s.%s#%d", g.Type, g.Field, ord), False, nil).Text = "guarded value " + esc
+				}
+			}
+		}
+	}
+}
+
+// guardUse: a map that was read out of a guarded field must also be looked up / updated / ranged over while the lock is
+// held (reading the field under the lock and using the map after the unlock is the same race as not locking at all).
+func (f *Frame) guardUse(at ssa.Instruction, m ssa.Value, st *State) {
+	u := f.u
+	if len(u.eng.Guarded) == 0 {
+		return
+	}
+	ld, ok := m.(*ssa.UnOp)
+	if !ok || ld.Op != token.MUL {
+		return
+	}
+	fa, ok := ld.X.(*ssa.FieldAddr)
+	if !ok {
+		return
+	}
+	pt, ok := fa.X.Type().Underlying().(*types.Pointer)
+	if !ok {
+		return
+	}
+	named, ok := pt.Elem().(*types.Named)
+	if !ok || named.Obj().Pkg() == nil {
+		return
+	}
+	stt, ok := named.Underlying().(*types.Struct)
+	if !ok {
+		return
+	}
+	fname := stt.Field(fa.Field).Name()
+	for _, g := range u.eng.Guarded {
+		if g.Pkg != named.Obj().Pkg().Name() || g.Type != named.Obj().Name() || g.Field != fname {
+			continue
+		}
+		lockIdx := -1
+		for i := 0; i < stt.NumFields(); i++ {
+			if stt.Field(i).Name() == g.Lock {
+				lockIdx = i
+			}
+		}
+		if lockIdx < 0 {
+			return
+		}
+		base := f.val(fa.X, st).T
+		lockAddr := u.fieldAddrTerm(base, stt.Field(lockIdx).Type(), 1, lockIdx)
+		if _, isIface := stt.Field(lockIdx).Type().Underlying().(*types.Interface); isIface {
+			cls := fieldClass(named, []string{g.Lock})
+			arr := u.heapGet(st, cls, ArraySort(SInt, SIface))
+			lockAddr = App("iint", SInt, Select(arr, base))
+		}
+		h, okh := st.ghost["$held"]
+		if !okh {
+			h = u.ghostInit("$held", ArraySort(SInt, SBool))
+		}
+		n := 0
+		for _, b := range f.fn.Blocks {
+			for _, i := range b.Instrs {
+				switch i.(type) {
+				case *ssa.Lookup, *ssa.MapUpdate, *ssa.Range:
+					n++
+				}
+				if i == at {
+					u.addObl(st, "lock:held-at-use", fmt.Sprintf("%s.%s#%d", g.Type, g.Field, n), Select(h, lockAddr), nil).Text = "a map read out of a guarded field is used while the guarding lock is held"
+					return
 				}
 			}
 		}
